@@ -1,5 +1,6 @@
 import SockModel.Model.HsSched
 import SockModel.Model.HsTimed
+import SockModel.Model.HsBlock
 import SockModel.Model.TlsBudget
 /-!
 # C18: handshake completion beyond the polling schedule
@@ -320,5 +321,156 @@ def timedDemo : List ActT :=
 example : SideFair 3 (timedDemo.map ActT.act) := by decide
 example : ∀ a ∈ timedDemo, 0 ≤ a.timeout := by decide
 example : ∀ a ∈ timedDemo, a.act.ok := by decide
+
+/-! ## (C) an unlimited timeout (`T < 0`) on one side, the other side polls
+
+In a sequential composition an unlimited wait with nothing ready never returns, so this needs an interleaving
+semantics.  `blockWorld` (Model/HsBlock.lean): the world of the blocking side `u` contains the polling peer (glue,
+engine, and the list `prog` of calls it is going to make).  A wait of side `u` for readability with nothing in flight
+and `t < 0` **suspends side `u` and lets the peer perform the next calls of its program** - each one the real
+zero-timeout `Send`/`Receive` (`callOn`) on the shared channels - until bytes towards `u` are in flight; then the
+blocked call resumes exactly where it was (inside the BIO callback inside the engine inside `Read`/`Write`).  Nothing
+is re-tried and nothing is assumed about how often the blocked call is suspended.  If the peer's program ends first the
+wait reports "not ready" - the observation ends with the call still blocked; the theorems say what holds then, too.
+
+Restrictions, relative to "(C) one side unlimited, the other polls" in full: the peer polls with timeout 0 (by (B) a
+limited timeout changes nothing but the clock - not combined here); the blocked side resumes at the END of the peer
+call that made its descriptor ready, not in the middle of it (peer calls are atomic with respect to the blocked side,
+which touches nothing while blocked); both sides blocking with unlimited timeouts at once is not covered (each
+side's wait would have to contain the other: two threads - outside this sequential model). -/
+
+/-- **blocked_wait_is_released** - no deadlock under blocking: side `u` is in its handshake, waits for a flight
+(`h.writes = false`) with an unlimited timeout, and the peer's program is at least as long as the work the peer's
+engine has left (`Enough`: at most `k1+k2+k3+3` calls).  Then the wait returns "ready" with bytes towards `u` in flight;
+on the way every call of the peer kept the invariant of the composition (none threw or asserted), and the peer's
+remaining program is still long enough for what its engine has left. -/
+theorem blocked_wait_is_released (C : Cfg) (hC : 1 < C.stepsMax) (P : HsP) (u : Bool) (dc ds : Bytes) (hdc : dc ≠ [])
+    (hds : ds ≠ []) (T : Int) (hT : T < 0) (g : Glue) (h : Hs) (w : PeerW)
+    (hinv : SysInv P dc ds (mkSys u g h w)) (hok : ProgOk w) (hs : h.stage < 3) (hr : h.writes = false)
+    (hen : Enough P w) :
+    ((blockWorld C P u dc ds).wait w .rd T).1 = true ∧ 0 < ((blockWorld C P u dc ds).wait w .rd T).2.ch.inb u ∧
+    SysInv P dc ds (mkSys u g h ((blockWorld C P u dc ds).wait w .rd T).2) ∧
+    ProgOk ((blockWorld C P u dc ds).wait w .rd T).2 ∧ Enough P ((blockWorld C P u dc ds).wait w .rd T).2 := by
+  rw [bw_wait_rd]
+  by_cases hin : 0 < w.ch.inb u
+  · rw [if_pos hin]; exact ⟨rfl, hin, hinv, hok, hen⟩
+  · rw [if_neg hin, if_pos hT]
+    obtain ⟨j1, j2, _, _, j5, _, j7⟩ := runPeer_spec C hC P u dc ds hdc hds g h w.prog w hinv hok (by omega)
+    obtain ⟨a1, a2⟩ := j7 hs hr
+    have hb := a2 hen
+    refine ⟨hb, j5 hb, j1, j2, ?_⟩
+    unfold Enough at hen ⊢
+    omega
+
+/-- **unlimited_send_completes_handshake**: `Send(payload, T)`, `T < 0`, of the blocking side - from any state of the
+composition between calls, with a peer program long enough for the peer's remaining handshake work (needed only
+while this side is unfinished) - returns the whole length, leaves this side `init_finished`, no error cached, the
+invariant of the composition intact (no peer call failed), the peer's work not increased. -/
+theorem unlimited_send_completes_handshake (C : Cfg) (hC : 1 < C.stepsMax) (P : HsP) (u : Bool) (dc ds : Bytes)
+    (hdc : dc ≠ []) (hds : ds ≠ []) (T : Int) (hT : T < 0) (s : St Hs PeerW) (hr : ReadyU (ownPay u dc ds) s)
+    (hinv : SysInv P dc ds (mkSys u s.g s.e s.w)) (hok : ProgOk s.w) (hen : s.e.stage < 3 → Enough P s.w) :
+    ∃ s', sendT C (blockWorld C P u dc ds) (engine P) s (ownPay u dc ds) T = (.ok (ownPay u dc ds).length, s') ∧
+      ReadyU (ownPay u dc ds) s' ∧ SysInv P dc ds (mkSys u s'.g s'.e s'.w) ∧ ProgOk s'.w ∧ 3 ≤ s'.e.stage ∧
+      work P s'.w.e ≤ work P s.w.e ∧ s.w.e.stage ≤ s'.w.e.stage := by
+  obtain ⟨s', h1, h2, h3⟩ := sendU_spec C hC P u dc ds hdc hds T hT s hr hinv hok hen
+  exact ⟨s', h1, h2, h3.inv, h3.ok, h3.fin, h3.wk, h3.st⟩
+
+/-- **unlimited_receive_completes_handshake**: `Receive(n, T)`, `T < 0`, `n ≥ 1`, of the blocking side: when the
+call is over this side is `init_finished` and the invariant is intact; it returned at least one byte (never
+"nothing", no assert) - unless the peer's program ended while it was waiting for application data. -/
+theorem unlimited_receive_completes_handshake (C : Cfg) (hC : 1 < C.stepsMax) (P : HsP) (u : Bool) (dc ds : Bytes)
+    (hdc : dc ≠ []) (hds : ds ≠ []) (T : Int) (hT : T < 0) (n : Nat) (hn : 1 ≤ n) (s : St Hs PeerW)
+    (hr : ReadyU (ownPay u dc ds) s) (hinv : SysInv P dc ds (mkSys u s.g s.e s.w)) (hok : ProgOk s.w)
+    (hen : s.e.stage < 3 → Enough P s.w) :
+    SysInv P dc ds (mkSys u (receiveT C (blockWorld C P u dc ds) (engine P) s n T).2.g
+      (receiveT C (blockWorld C P u dc ds) (engine P) s n T).2.e (receiveT C (blockWorld C P u dc ds) (engine P) s n T).2.w) ∧
+    3 ≤ (receiveT C (blockWorld C P u dc ds) (engine P) s n T).2.e.stage ∧
+    ((receiveT C (blockWorld C P u dc ds) (engine P) s n T).2.w.prog = [] ∨
+     (∃ out, (receiveT C (blockWorld C P u dc ds) (engine P) s n T).1 = .ok out ∧ out ≠ [] ∧
+        ReadyU (ownPay u dc ds) (receiveT C (blockWorld C P u dc ds) (engine P) s n T).2)) := by
+  obtain ⟨h1, h2⟩ := recvU_spec C hC P u dc ds hdc hds T hT n hn s hr hinv hok hen
+  exact ⟨h1.inv, h1.fin, h2⟩
+
+/-- **handshake_completes_one_side_unlimited**: side `u` (client or server) calls with an unlimited timeout, the
+other side polls with timeout 0, making the calls of `prog` (any mix of `Send` / `Receive n`, `n ≥ 1`) in order - while
+side `u` is blocked, and between the calls of side `u` wherever the schedule says `poll`.  For every schedule that
+contains a call of side `u` - `pre` (polls of the peer before it), the call `kb` (`Send` or `Receive`), `post` (any
+further calls of either side) -, if the peer's program is long enough to reach that call with `k1+k2+k3+3` calls to
+spare: the invariant of the composition holds at the end (no call of the peer ever failed), **side `u` is
+`init_finished`** (already when its first call returns); and unless the observation ended because the peer's program
+was exhausted: no call of side `u` threw or asserted, and once `post` contains `k1+k2+k3+3` polls **the peer is
+`init_finished`** as well. -/
+theorem handshake_completes_one_side_unlimited (C : Cfg) (hC : 1 < C.stepsMax) (P : HsP) (u : Bool) (dc ds : Bytes)
+    (hdc : dc ≠ []) (hds : ds ≠ []) (T : Int) (hT : T < 0) (segs : List Nat) (prog : List Kind)
+    (hprog : ∀ k ∈ prog, k.ok) (pre post : List ActU) (kb : Kind) (hpre : ∀ a ∈ pre, a = .poll) (hkb : kb.ok)
+    (hpost : ∀ a ∈ post, a.okU) (hlen : pre.length + P.half ≤ prog.length) :
+    SysInv P dc ds (mkSys u (SysU.run C P u dc ds T (pre ++ .block kb :: post) (SysU.init P u segs prog)).g
+      (SysU.run C P u dc ds T (pre ++ .block kb :: post) (SysU.init P u segs prog)).e
+      (SysU.run C P u dc ds T (pre ++ .block kb :: post) (SysU.init P u segs prog)).w) ∧
+    3 ≤ (SysU.run C P u dc ds T (pre ++ .block kb :: post) (SysU.init P u segs prog)).e.stage ∧
+    ((SysU.run C P u dc ds T (pre ++ .block kb :: post) (SysU.init P u segs prog)).w.prog ≠ [] →
+      (SysU.run C P u dc ds T (pre ++ .block kb :: post) (SysU.init P u segs prog)).faults = 0 ∧
+      (P.half ≤ polls post →
+        3 ≤ (SysU.run C P u dc ds T (pre ++ .block kb :: post) (SysU.init P u segs prog)).w.e.stage)) := by
+  have hinit : UInv P u dc ds (SysU.init P u segs prog) :=
+    ⟨sysInv_initU P u dc ds segs prog, hprog, Or.inr ⟨⟨rfl, rfl, rfl, rfl, Or.inl rfl⟩, rfl⟩⟩
+  obtain ⟨i1, e1, p1, w1⟩ := run_polls C hC P u dc ds hdc hds T hT pre _ hinit hpre
+  rw [runU_append, runU_cons]
+  generalize SysU.run C P u dc ds T pre (SysU.init P u segs prog) = y1 at i1 e1 p1 w1
+  have hwinit : work P (SysU.init P u segs prog).w.e = P.half := by
+    simp only [SysU.init, work_init, HsP.half]
+  have hplen : P.half ≤ y1.w.prog.length := by
+    rw [p1, List.length_drop]
+    show P.half ≤ prog.length - pre.length
+    omega
+  have hen1 : Enough P y1.w := by unfold Enough; omega
+  have hne1 : y1.w.prog ≠ [] := by
+    intro h0
+    rw [h0] at hplen
+    simp [HsP.half] at hplen
+  obtain ⟨i2, w2, _, _, f2, _, _⟩ := stepU_spec C hC P u dc ds hdc hds T hT y1 i1 (.block kb) hkb (fun _ _ => hen1)
+  have hfin2 := f2 hne1 ⟨kb, rfl⟩
+  obtain ⟨j1, j2, j3, j4⟩ := run_after C hC P u dc ds hdc hds T hT post _ i2 hpost hfin2
+  refine ⟨j1.inv, j2, ?_⟩
+  intro hne
+  refine ⟨?_, ?_⟩
+  · rcases j1.live with h | h
+    · exact absurd h hne
+    · exact h.2
+  · intro hp
+    rcases j4 with h | h | h
+    · exact absurd h hne
+    · exact h
+    · have hwf := (sysInv_own P u dc ds _ _ _ i2.inv)
+      have hle : work P (y1.step C P u dc ds T (.block kb)).w.e ≤ P.half := by omega
+      exact work_zero_fin P _ (by omega)
+
+/-- the call of side `u` in the schedule is needed: as long as only the peer polls, side `u` stays where it was
+(stage 0 from the initial state), however long the peer's program is -/
+theorem blocking_side_must_call (C : Cfg) (hC : 1 < C.stepsMax) (P : HsP) (u : Bool) (dc ds : Bytes)
+    (hdc : dc ≠ []) (hds : ds ≠ []) (T : Int) (hT : T < 0) (segs : List Nat) (prog : List Kind)
+    (hprog : ∀ k ∈ prog, k.ok) (pre : List ActU) (hpre : ∀ a ∈ pre, a = .poll) :
+    (SysU.run C P u dc ds T pre (SysU.init P u segs prog)).e = Hs.init P u ∧
+    ¬ 3 ≤ (SysU.run C P u dc ds T pre (SysU.init P u segs prog)).e.stage := by
+  have hinit : UInv P u dc ds (SysU.init P u segs prog) :=
+    ⟨sysInv_initU P u dc ds segs prog, hprog, Or.inr ⟨⟨rfl, rfl, rfl, rfl, Or.inl rfl⟩, rfl⟩⟩
+  obtain ⟨_, e1, _, _⟩ := run_polls C hC P u dc ds hdc hds T hT pre _ hinit hpre
+  refine ⟨e1, ?_⟩
+  rw [e1]
+  simp [SysU.init, Hs.init]
+
+/-- the peer's faults, spelled out: part of the invariant -/
+theorem peer_never_faults (P : HsP) (u : Bool) (dc ds : Bytes) (g : Glue) (h : Hs) (w : PeerW)
+    (hinv : SysInv P dc ds (mkSys u g h w)) : w.faults = 0 := by
+  have := hinv.2.2.2.2.2.2
+  cases u <;> simpa [mkSys] using this
+
+/-- the hypotheses are satisfiable: the server blocks in `Receive(3, -1)` after two polls of the client, then sends;
+the client's polling loop alternates `Receive(4, 0)` and `Send` -/
+def blockDemoProg : List Kind := (List.replicate 8 [Kind.recv 4, Kind.send]).flatten
+example : ∀ k ∈ blockDemoProg, k.ok := by decide
+example : ∀ a ∈ [ActU.poll, ActU.poll], a = .poll := by decide
+example : [ActU.poll, ActU.poll].length + tinyP'.half ≤ blockDemoProg.length := by decide
+example : tinyP'.half ≤ polls (ActU.block .send :: List.replicate 6 ActU.poll) := by decide
 
 end SockModel.Hs.C18Hs
